@@ -117,6 +117,21 @@ MUTATIONS = {
 
         if (  # Read directly from file""",
     ),
+    # ---- seeded/C20-v2: the global limit addressed through type(self): one value per metaclass ----
+    "c20-anim-max-bytes-per-metaclass": dict(
+        file="image/iterm2.py",
+        edits=[
+            dict(file="image/iterm2.py",
+                 old="        lambda self: __class__._native_anim_max_bytes,",
+                 new="        lambda self: type(self)._native_anim_max_bytes,"),
+            dict(file="image/iterm2.py",
+                 old="        __class__._native_anim_max_bytes = max_bytes\n",
+                 new="        type(self)._native_anim_max_bytes = max_bytes\n"),
+            dict(file="image/iterm2.py",
+                 old="        __class__._native_anim_max_bytes = __class__.__native_anim_max_bytes\n",
+                 new="        type(self)._native_anim_max_bytes = type(self).__native_anim_max_bytes\n"),
+        ],
+    ),
     # ---- own ------------------------------------------------------------------------------
     "c20-instance-unset-writes-default": dict(
         file="image/common.py",
